@@ -32,6 +32,28 @@ pub fn fresh_shadow(cfg: &Config) -> ModelState {
         queue: QueueModel::new(&cfg.queue),
         tst_code: 0,
         outq: vec![false; cfg.controllers.max(1) as usize],
+        plain488: cfg.plain488,
+    }
+}
+
+/// a hardware event through one of the three public entry points
+pub fn gen_hw(rng: &mut Rng, reg: Reg, cur: u16) -> HwOp {
+    match rng.below(6) {
+        0 => HwOp {
+            reg,
+            value: if rng.chance(1, 2) { 1 << rng.below(16) } else { rng.next_u64() as u16 & rng.next_u64() as u16 },
+            op: HwKind::SetBits,
+        },
+        1 => HwOp {
+            reg,
+            value: if rng.chance(1, 2) { 1 << rng.below(16) } else { rng.next_u64() as u16 & rng.next_u64() as u16 },
+            op: HwKind::ClearBits,
+        },
+        _ => HwOp {
+            reg,
+            value: gen_condition(rng, cur),
+            op: HwKind::Set,
+        },
     }
 }
 
@@ -69,6 +91,7 @@ pub fn gen_u16_value(rng: &mut Rng) -> Elem {
             radix: 'B',
             digits: format!("{:b}", v),
         },
+        3 => Elem::Dec(crate::props::c13::spell_integer(rng, v)),
         _ => Elem::Dec(format!("{}", v)),
     }
 }
@@ -125,6 +148,7 @@ pub fn gen_stat_msg(rng: &mut Rng, tc: &TreeCtx, uniq: &mut u32, shadow: &ModelS
                     u.plan.hw = Some(HwOp {
                         reg,
                         value: gen_condition(rng, cur),
+                        op: HwKind::Set,
                     });
                     u
                 }
@@ -177,6 +201,8 @@ impl Prop for C15 {
             "condition_change_inside_message",
             "preset_executed",
             "cls_with_pending_event",
+            "set_condition_bits_partial_overlap",
+            "clear_condition_bits",
         ];
         v.into_iter().map(String::from).collect()
     }
@@ -189,6 +215,7 @@ impl Prop for C15 {
             queue: queue_cfg(&mut rng),
             controllers: 1,
             tree,
+            plain488: false,
         };
         let mut t = base_trace("C15", seed, run, "history", cfg.clone());
         let tc = TreeCtx::new(&cfg.tree);
@@ -202,9 +229,10 @@ impl Prop for C15 {
             match rng.weighted(&[w_hw, w_msg]) {
                 0 => {
                     let reg = *rng.pick(&[Reg::Oper, Reg::Ques]);
-                    let value = gen_condition(&mut rng, shadow.reg_ref(reg).cond);
-                    shadow.reg(reg).set_condition(value);
-                    t.steps.push(Step::Hw(HwOp { reg, value }));
+                    let op = gen_hw(&mut rng, reg, shadow.reg_ref(reg).cond);
+                    let target = op.target(shadow.reg_ref(reg).cond);
+                    shadow.reg(reg).set_condition(target);
+                    t.steps.push(Step::Hw(op));
                 }
                 _ => {
                     let msg = gen_stat_msg(&mut rng, &tc, &mut uniq, &shadow, true);
@@ -301,6 +329,17 @@ impl StepHandler for H15 {
             stats.probe("both_filters_set_on_a_bit");
         }
         let b = before.reg_ref(op.reg);
+        match op.op {
+            HwKind::SetBits => {
+                if b.cond & op.value != 0 && !b.cond & op.value != 0 {
+                    stats.probe("set_condition_bits_partial_overlap");
+                }
+            }
+            HwKind::ClearBits => stats.probe("clear_condition_bits"),
+            HwKind::Set => {}
+        }
+        let target = op.target(b.cond);
+        let op = &HwOp { reg: op.reg, value: target, op: HwKind::Set };
         if b.event == 0 {
             self.toggles[ri] = [0; 16];
         }
